@@ -66,8 +66,14 @@ def r2_linkage(run, F):
     d = F.body("alpha::generator::declare")
     found = {}
     for n in walk(d["hir"]):
-        if n.get("k") == "Let" and isinstance(n.get("init"), dict) and n["init"].get("k") == "If" and n["pat"].get("k") == "Bind":
-            e = n["init"]
+        if n.get("k") == "Let" and isinstance(n.get("init"), dict) and n["pat"].get("k") == "Bind":
+            e = hirq.unwrap_trivial(n["init"])
+            if e.get("k") == "Call" and (hirq.callee(e) or "").startswith("alpha::generator::") and F.has_body(hirq.callee(e)):
+                # the choice may live in a helper of its own: `let linkage = linkage_of_function(flags);`
+                hb = hirq.unwrap_trivial(F.body(hirq.callee(e))["hir"])
+                e = hirq.unwrap_trivial(hb.get("e", {})) if hb.get("k") == "Block" and not hb.get("stmts") else hb
+            if e.get("k") != "If":
+                continue
             # by role: the local selected between LLVMLinkage values / between LLVMCallConv values (its name is free)
             built = " ".join(hirq.short(p) for p, _ in hirq.constructs(e))
             role = "linkage" if "LLVMLinkage::" in built else "callconv" if "LLVMCallConv::" in built else None
